@@ -110,10 +110,48 @@ pub(crate) mod verif_ring {
         len as u32
     }
 
+    // User-defined RealArray sizes (the trait is public and documented for exactly that): above 64 and not a power of two.
+    macro_rules! big_array {
+        ($name:ident, $n:expr) => {
+            pub struct $name(pub [u8; $n]);
+            impl AsRef<[u8]> for $name { fn as_ref(&self) -> &[u8] { &self.0 } }
+            impl AsMut<[u8]> for $name { fn as_mut(&mut self) -> &mut [u8] { &mut self.0 } }
+            unsafe impl RealArray<u8> for $name { const LEN: usize = $n; }
+        };
+    }
+    big_array!(Arr65, 65);
+    big_array!(Arr96, 96);
+    big_array!(Arr100, 100);
+    /// C19 index arithmetic at the function level for large capacities: next_idx(i) = (i + 1) mod capacity for every i,
+    /// and a push/pop pair at an arbitrary ring position keeps FIFO order (u8 payload, no drop glue).
+    pub fn next_idx_check<A: AsRef<[u8]> + AsMut<[u8]> + RealArray<u8>, S: Src>(s: &mut S) -> u32 {
+        let mut b = ArrayBuf::<u8, A>::new();
+        let n = A::LEN;
+        let i = s.below(128) as usize;
+        s.assume(i < n);
+        assert!(b.capacity() == n, "C19 ArrayBuf: capacity() differs from RealArray::LEN");
+        assert!(b.next_idx(i) == (i + 1) % n, "C19 ArrayBuf: next_idx() does not advance by one modulo the capacity");
+        // place the ring at position i and run two pushes and two pops across it
+        b.recv_idx = i;
+        b.send_idx = i;
+        b.size = 0;
+        b.push(7);
+        b.push(9);
+        assert!(b.len() == 2 && b.send_idx == (i + 2) % n, "C19 ArrayBuf: push did not advance the write index modulo the capacity");
+        let x = b.pop();
+        let y = b.pop();
+        assert!(x == 7 && y == 9 && b.is_empty() && b.recv_idx == (i + 2) % n, "C19 ArrayBuf: pop order or read index wrong across the wrap-around");
+        s.reached(i as u32);
+        i as u32
+    }
+
     #[no_mangle]
     pub fn fi_verif_replay_ring(name: &str, cfg: u32, p: u32, s: &mut ScriptSrc<'_>) -> bool {
         let cap = cfg as usize;
         match (name, cap) {
+            ("ring_next_idx", 65) => { next_idx_check::<Arr65, _>(s); }
+            ("ring_next_idx", 96) => { next_idx_check::<Arr96, _>(s); }
+            ("ring_next_idx", 100) => { next_idx_check::<Arr100, _>(s); }
             ("ring_hist_array", 0) => { hist::<ArrayBuf<Tag, [Tag; 0]>, _>(s, 0, 64, p); }
             ("ring_hist_array", 1) => { hist::<ArrayBuf<Tag, [Tag; 1]>, _>(s, 1, 64, p); }
             ("ring_hist_array", 2) => { hist::<ArrayBuf<Tag, [Tag; 2]>, _>(s, 2, 64, p); }
@@ -224,6 +262,15 @@ pub(crate) mod verif_ring {
                 }
             };
         }
+        #[kani::proof]
+        #[kani::unwind(3)]
+        fn next_idx_65() { let _ = next_idx_check::<Arr65, _>(&mut KaniSrc); }
+        #[kani::proof]
+        #[kani::unwind(3)]
+        fn next_idx_96() { let i = next_idx_check::<Arr96, _>(&mut KaniSrc); kani::cover!(i == 95, "W next_idx: last slot"); }
+        #[kani::proof]
+        #[kani::unwind(3)]
+        fn next_idx_100() { let _ = next_idx_check::<Arr100, _>(&mut KaniSrc); }
         array_step!(array_step_c0, 0);
         array_step!(array_step_c1, 1);
         array_step!(array_step_c2, 2);
